@@ -163,6 +163,13 @@ def main(argv=None):
                 lines.append(canonical_line(rng, lib, ec, sname))
             if not good:
                 continue
+            # Z-segments are legitimate content anywhere in a message
+            if rng.random() < .4 and len(lines) > 2:
+                for _z in range(rng.randint(1, 2)):
+                    lines.insert(rng.randint(2, len(lines)), canonical_line(rng, lib, ec, None).replace(
+                        'ZXX', 'Z%02d' % rng.randint(0, 99), 1) if False else 'Z%s|%s' % (
+                        rng.choice(['PI', 'X1', 'ZZ']), S.gen_varies(rng, ec, False)))
+                dist['messages_with_z_segments'] = dist.get('messages_with_z_segments', 0) + 1
             text = '\r'.join(lines)
             for fg in (True, False):
                 dist['messages'] += 1
